@@ -51,8 +51,8 @@ CLAIMED = {
    note=("NOT decided — and this is most of C05: the ORDER in which the attached middlewares and the handler RUN, early returns, "
          "post-processors captured by a wrapping scope: stage functions emitted by processing_pipeline/codegen.rs and the stage grouping of "
          "RequestHandlerPipeline::new, i.e. the emitted program (DESIGN §1.3). The induction from 'one level + hand-over through the "
-         "work-list' to the whole tree is not mechanised; termination of the work-list loop is assumed (allow-listed attribute, listed in "
-         "trusted_base); la_arena/interner/maps/add_scope are assumed stand-ins."),
+         "work-list' to the whole tree is not mechanised (termination of the work-list loop IS proved); "
+         "la_arena/interner/maps/add_scope are assumed stand-ins."),
    design="§3/C05"),
  "C06": dict(
    text=("Partial claim — the compile-time half of one sentence: WHICH error observers are attached to WHICH handler ('every error observer "
@@ -104,8 +104,12 @@ CLAIMED = {
          "under contract: GeneratedApp::persist — the only way the SDK is touched — carries the protocol precondition 'the analysis "
          "accepted the blueprint AND code generation succeeded', which Verus discharges at its call site; a rejected blueprint never "
          "exits 0; exit 0 implies both verdicts were positive. With C10's obligations on the same text (no write primitive is reachable "
-         "under --check, every SDK write goes through the writer) this is the statement's second sentence for every blueprint."),
-   note=("NOT decided: termination, panic-freedom and 'at least one error diagnostic is printed' are properties of the whole 26 kLoC "
+         "under --check, every SDK write goes through the writer) this is the statement's second sentence for every blueprint. "
+         "Of the first sentence ('terminates'), two loops of the compiler are proved to terminate on the real text, for every input "
+         "(obligations tagged @C09 in the C05 and C04 units): the work-list walk over the blueprint tree in process_blueprint (measure: "
+         "nested blueprints still to be processed, a recursive function over the schema) and the breadth-first scope walk of "
+         "ConstructibleDb::get (measure: upward paths from the queued scopes, on a graph whose parents have smaller ids)."),
+   note=("NOT decided: termination of everything else, panic-freedom and 'at least one error diagnostic is printed' are properties of the whole 26 kLoC "
          "compiler behind App::build (Verus rejects its text, Kani proves no termination); a failing I/O operation half-way through "
          "GeneratedApp::persist (manifest written, lib.rs not) is outside the quantifier (it ranges over blueprints). No native replay: "
          "pavexc cannot run here (it needs rustdoc JSON from a nightly that is not installed), so a refuted obligation is reported with "
